@@ -177,7 +177,7 @@ def generate(reg, key, budget=None, parallel=None):
                         goal = F()
                         info = {"clause": c.ensures_src[k] + f"   [undefined on the produced result: {ue}]"}
                     ctx.oblige("ensures", f"{key}/{tag}ensures[{k}]", goal, info)
-                frame_obligations(it, c, key, tag, vals, old, False)
+                frame_obligations(it, c, key, tag, _with_closure(vals, closure_env), old, False)
                 # every completed path is evidence against vacuity
                 ctx.oblige("canary", f"{key}/{tag}canary", F(), {"clause": "False (must be refuted)"})
                 return outcome
@@ -311,6 +311,15 @@ def _unchanged(cur, old):
     return None if z3.is_true(g) else g
 
 
+def _with_closure(vals, closure_env):
+    """arguments plus the variables of the enclosing scope (closures are verified against those too)"""
+    if closure_env is None:
+        return vals
+    out = {k: v for k, v in closure_env.vars.items() if not k.startswith("__")}
+    out.update(vals)
+    return out
+
+
 def frame_obligations(it, c, key, tag, vals, old, exceptional):
     """everything reachable from the arguments that the contract does not list as modified is unchanged"""
     from .callspec import reachable_lvalues
@@ -341,7 +350,7 @@ def frame_obligations(it, c, key, tag, vals, old, exceptional):
 
 def _check_raise(it, sp, c, key, tag, pr, vals, closure_env):
     ctx = it.ctx
-    frame_obligations(it, c, key, tag, vals, it.old_env, True)
+    frame_obligations(it, c, key, tag, _with_closure(vals, closure_env), it.old_env, True)
     chain = class_chain(getattr(pr.exc, "clsinfo", None) or pr.exc.cls)
     env1 = Env(closure_env or Env(None, {"__module__": it._target_mod}), dict(vals))
     env1.vars["exc"] = pr.exc
